@@ -9,6 +9,8 @@ use std::io::{BufRead, Write};
 use twofloat::{TwoFloat, TwoFloatError};
 
 mod extra;
+#[cfg(feature = "serde")]
+mod recser;
 
 fn rd_f64(s: &str) -> f64 {
     f64::from_bits(u64::from_str_radix(s, 16).unwrap_or(0))
